@@ -729,3 +729,62 @@ MUTANTS += [
       "        assertions = [\n            self._end - self._start == self.duration,\n            self._start >= 0,\n        ]",
       "        assertions = [\n            self._end - self._start == self.duration,\n        ]\n        if self.release_date is None:\n            assertions.append(self._start >= 0)"),
 ]
+
+MUTANTS += [
+    # ---- audit of the claims of R-STREAM-EXACT: an extra assertion placed inside a documented group must not be adopted by it ----
+    B("c05-extra-assertion-inside-the-pair-loop", ["C05", "C12"], SV,
+      "                    self.append_z3_assertion(\n                        z3.Or(start_task_k >= end_task_i, start_task_i >= end_task_k)\n                    )\n",
+      "                    self.append_z3_assertion(\n                        z3.Or(start_task_k >= end_task_i, start_task_i >= end_task_k)\n                    )\n                    self.append_z3_assertion(start_task_k != start_task_i)\n"),
+    B("c05-extra-assertion-inside-the-buffer-loop", ["C05", "C12", "C09"], SV,
+      "            # first add all buffer assertions\n            self.append_z3_assertion(buffer.get_z3_assertions())\n",
+      "            # first add all buffer assertions\n            self.append_z3_assertion(buffer.get_z3_assertions())\n            self.append_z3_assertion(buffer._buffer_levels[0] >= 0)\n"),
+    B("c05-extra-assertion-beside-the-work-amount", ["C05", "C12", "C02"], SV,
+      "                    self.append_z3_assertion(work_amount_assertion)\n",
+      "                    self.append_z3_assertion(work_amount_assertion)\n                    self.append_z3_assertion(task._end - task._start <= task.work_amount)\n"),
+    B("c05-extra-assertion-in-the-task-loop-guarded", ["C05", "C12"], SV,
+      "            self.append_z3_assertion(task._end <= self.problem._horizon)",
+      "            self.append_z3_assertion(task._end <= self.problem._horizon)\n            if task.priority > 1:\n                self.append_z3_assertion(task._start <= self.problem._horizon - task.priority)"),
+]
+
+MUTANTS += [
+    # ---- audit: an extra assertion slipped into a constructor that already asserts the right thing ----
+    B("c05-indicator-also-asserted-non-negative", ["C05", "C08"], IND,
+      "        self.append_z3_assertion(self._indicator_variable == expression)", 
+      "        self.append_z3_assertion(self._indicator_variable == expression)\n        self.append_z3_assertion(self._indicator_variable >= 0)", occurrence=3),
+    B("c05-buffer-initial-level-also-bounded", ["C05", "C09"], BUF,
+      "            self.append_z3_assertion(buffer_initial_level == self.initial_level)",
+      "            self.append_z3_assertion(buffer_initial_level == self.initial_level)\n        self.append_z3_assertion(buffer_initial_level >= 0)"),
+    B("c05-worker-asserts-something", ["C05", "C02"], RS,
+      "        # only worker are added to the main context, not SelectWorkers\n",
+      "        self.append_z3_assertion(z3.Int(f\"{self.name}_load\") >= 0)\n        # only worker are added to the main context, not SelectWorkers\n"),
+    B("c05-selection-also-forces-the-first-worker", ["C05", "C02"], RS,
+      "        processscheduler.base.active_problem.add_resource_select_workers(self)",
+      "        self.append_z3_assertion(self._selection_dict[self._list_of_workers[0]])\n        processscheduler.base.active_problem.add_resource_select_workers(self)"),
+]
+
+MUTANTS += [
+    # ---- audit (continued): extra assertions in constraint constructors that already assert their relation ----
+    B("c05-indicator-target-also-bounds-the-horizon", ["C05"], IC,
+      "        self.set_z3_assertions(self.indicator._indicator_variable == self.value)",
+      "        self.set_z3_assertions(self.indicator._indicator_variable == self.value)\n        self.set_z3_assertions(self.indicator._indicator_variable >= 0)"),
+    B("c05-condition-schedule-also-pins-the-start", ["C05", "C06"], TC,
+      "                self.task._scheduled == False,\n            )\n        )\n",
+      "                self.task._scheduled == False,\n            )\n        )\n        self.set_z3_assertions(z3.Implies(self.condition, self.task._start == 0))\n"),
+    B("c05-load-buffer-asserts-a-start-bound", ["C05", "C09"], TC,
+      "        self.buffer.add_loading_task(self.task, self.quantity)",
+      "        self.buffer.add_loading_task(self.task, self.quantity)\n        self.set_z3_assertions(self.task._end >= self.quantity)"),
+    B("c05-solve-asserts-before-checking", ["C05", "C12", "C13"], SV,
+      "        # for all cases\n", "        self.append_z3_assertion(self.problem._horizon >= 1)\n        # for all cases\n"),
+]
+
+MUTANTS += [
+    B("c05-condition-schedule-also-pins-the-start-guarded", ["C05", "C06"], TC,
+      "                self.task._scheduled == False,\n            )\n        )\n",
+      "                self.task._scheduled == False,\n            )\n        )\n        self.set_z3_assertions(z3.Implies(z3.And(self.condition, self.task._scheduled), self.task._start == 0))\n"),
+    B("c05-load-buffer-asserts-a-bound-for-mandatory-tasks", ["C05", "C09"], TC,
+      "        self.buffer.add_loading_task(self.task, self.quantity)",
+      "        self.buffer.add_loading_task(self.task, self.quantity)\n        if not self.task.optional:\n            self.set_z3_assertions(self.task._end >= self.quantity)"),
+    B("c05-dependency-also-orders-the-tasks", ["C05", "C06"], TC,
+      "        self.set_z3_assertions(self.task_1._scheduled == self.task_2._scheduled)",
+      "        self.set_z3_assertions(self.task_1._scheduled == self.task_2._scheduled)\n        self.set_z3_assertions(z3.Implies(z3.And(self.task_1._scheduled, self.task_2._scheduled), self.task_1._end <= self.task_2._start))"),
+]
